@@ -620,3 +620,87 @@ func init() {
 		return out
 	}
 }
+
+func init() {
+	propMeta["C12"] = PropMeta{
+		Bounds: map[string]interface{}{
+			"quick":    "one operand a concrete simple ring (6 curated shapes incl. concave ones, both index kinds on two of them), the other a fully symbolic two-point line (ALL real coordinates): intersects / contains-point / contains-line (outside the C03 contact classes) are unchanged by translation with an ARBITRARY real offset (also through Move), scaling by 2 and 1/2, reflection in either axis and across the diagonal, half turn; and by re-encoding the ring: every start vertex, both directions, closing vertex kept or dropped; line reversal",
+			"thorough": "adds every simple lattice triangle on [0,2]^2 for the transformations",
+		},
+		Outside:     []string{"both operands symbolic", "contains-line in boundary-contact configurations (C03 known findings: the answer can be wrong there and then depends on the encoding)", "scaling by other powers of two (the code is homogeneous; only 2 and 1/2 are executed)", "polygon-polygon pairs"},
+		Stubs:       []string{"Segment.Raycast, Segment.IntersectsSegment -> specs (proved in-run)"},
+		Assumptions: commonAssumptions,
+	}
+	jobTables["C12"] = func(tier string) []Job {
+		out := segLemmaJobs()
+		c := []string{fnRaycast, fnSegSeg}
+		shapes := append([][]ipt{}, curatedRings[:6]...)
+		if tier == "thorough" {
+			shapes = append(shapes, latticeRings(3, 2, false)...)
+		}
+		for i, r := range shapes {
+			for t := 0; t <= 6; t++ {
+				kinds := []int{0}
+				if i < 2 && (t == 0 || t == 3) {
+					kinds = []int{0, 1, 2}
+				}
+				for _, kind := range kinds {
+					params := append([]int{t, kind}, ringParams(r)...)
+					out = append(out, Job{Pkg: "geometry", Harness: "H_Inv_Xform", Params: params, Timeout: 120, Scale: t != 0, Contracts: c, NoCover: i+t > 0, Combine: true})
+				}
+			}
+		}
+		for i, r := range curatedRings[:5] {
+			n := len(r)
+			for k := 0; k < n; k++ {
+				for rev := 0; rev <= 1; rev++ {
+					for drop := 0; drop <= 1; drop++ {
+						if k == 0 && rev == 0 && drop == 0 {
+							continue
+						}
+						if i >= 2 && (k+rev+drop)%2 == 1 && tier != "thorough" {
+							continue
+						}
+						params := append([]int{k, rev, drop, 0}, ringParams(r)...)
+						out = append(out, Job{Pkg: "geometry", Harness: "H_Inv_Encoding", Params: params, Timeout: 120, Scale: true, Contracts: c, NoCover: i+k > 0, Combine: true})
+					}
+				}
+			}
+		}
+		return out
+	}
+}
+
+func init() {
+	propMeta["C08"] = PropMeta{
+		Bounds: map[string]interface{}{
+			"quick":    "index options as values through the real option-handling code (toGeometryOpts -> NewPoly/NewLine -> makeSeries -> buildIndex): polygon 4+3 (hole) and line string of 4 positions with ALL real coordinates; IndexGeometryKind in {None, R-tree, quadtree, an unknown value 3}; IndexGeometry in {0, 1, exact point count, count+1, 64}; probes Point / two-point LineString / Rect with ALL real coordinates: Rect, Empty, Valid, NumPoints, JSON and Contains / Within / Intersects in both operand orders equal those of the index-free object. IndexChildren is decided by the C10 check (collections indexed or not), the representation options by the C09 check (SimplePoint == Point, Rect == polygon)",
+			"thorough": "same",
+		},
+		Outside:     []string{"that Parse routes ParseOptions to these sites, AllowRects' recognition condition, AllowSimplePoints' condition, RequireValid, Circle recognition: all inside gjson-bound parseJSON* functions which the encoder does not reach (a seeded change there, seeded/C08, is not caught)", "shapes larger than 4 positions"},
+		Stubs:       []string{"Segment.Raycast, Segment.IntersectsSegment -> specs (proved in-run)", "strconv.AppendFloat opaque token"},
+		Assumptions: commonAssumptions,
+	}
+	jobTables["C08"] = func(tier string) []Job {
+		out := segLemmaJobs()
+		c := []string{fnRaycast, fnSegSeg}
+		for shape := 0; shape <= 1; shape++ {
+			cnt := 5
+			if shape == 1 {
+				cnt = 4
+			}
+			for kind := 0; kind <= 3; kind++ {
+				mins := []int{0, 1, cnt, cnt + 1, 64}
+				if kind == 0 || kind == 3 {
+					mins = []int{1}
+				}
+				for _, mp := range mins {
+					for probe := 0; probe <= 2; probe++ {
+						out = append(out, Job{Pkg: "geojson", Harness: "H_Opts", Params: []int{4, shape, kind, mp, probe}, Timeout: 120, Scale: true, Contracts: c, Combine: true, Abstract: true, NoCover: kind+probe > 0})
+					}
+				}
+			}
+		}
+		return out
+	}
+}
